@@ -197,6 +197,14 @@ func (r *Replica) syncOnce(ctx context.Context, maxSyncLTXFiles int) (result rep
 		return result, errReplicaWaitForData
 	}
 
+	// The local position can only fall behind the replica when local state was
+	// reset or replaced underneath us. Nothing would be uploaded until the local
+	// TXID passes the replica's again, so reporting success here would acknowledge
+	// transactions that are not stored.
+	if rpos := r.Pos(); dpos.TXID < rpos.TXID {
+		return result, fmt.Errorf("database position %s is behind replica position %s", dpos.TXID, rpos.TXID)
+	}
+
 	r.Logger().Info("replica sync",
 		slog.Group("txid",
 			slog.String("replica", r.Pos().TXID.String()),
